@@ -396,3 +396,37 @@ def _walk(n):
     for c in children(n):
         if c["k"] != "fn":
             yield from _walk(c)
+
+
+def chain_programs(rng, n):
+    """Call chains over iterables (guide: Iterators): each / keep with inline functions whose bodies end in a literal, a
+    variable or a call, followed by consumers; the value is assigned and printed.  They exist for the layout checks
+    (a chain broken across indented lines, calls without parentheses, inside redundant parentheses)."""
+    out = []
+    for _ in range(n):
+        reset_ids()
+        r = rng
+        src = r.choice([lambda: Tuple([Int(3), Int(-5), Int(1), Int(4)]), lambda: List([Int(2), Int(7), Int(0)]), lambda: Range(Int(0), Int(5))])()
+        links = []
+        for j in range(r.randrange(1, 4)):
+            v = "v%d" % j
+            kind = r.random()
+            if kind < 0.5:
+                body = r.choice([lambda: Cmp(["<"], [Id(v), Int(r.choice([0, 2, 4]))]), lambda: Cmp([">="], [Id(v), Id("lim")]),
+                                 lambda: Cmp(["!="], [Id(v), App(Id("one"), [Int(3)])])])()
+                links.append(("keep", [Fn([Param(v)], Block([body]), free=["lim", "one"])]))
+            else:
+                body = r.choice([lambda: Bin("*", Id(v), Int(r.choice([2, 10]))), lambda: Bin("+", Id(v), Id("lim")),
+                                 lambda: Bin("-", Id(v), App(Id("one"), [Int(1)])), lambda: Tuple([Id(v), Int(1)])])()
+                links.append(("each", [Fn([Param(v)], Block([body]), free=["lim", "one"])]))
+        cons = r.choice([("to_tuple", []), ("to_list", []), ("count", []), ("fold", None)])
+        e = MCall(src, "iter", []) if r.random() < 0.3 else src
+        for m, args in links:
+            e = MCall(e, m, args)
+        if cons[0] == "fold":
+            e = MCall(e, "fold", [Int(0), Fn([Param("acc"), Param("x")], Block([Bin("+", Id("acc"), Core("size", [Tuple([Id("x")])]))]))])
+        else:
+            e = MCall(e, cons[0], [])
+        out.append(Block([Asg("lim", Int(r.choice([1, 3]))), Asg("one", Fn([Param("a")], Block([Id("a")]))), Asg("res", e),
+                          Core("print", [Id("res")]), Id("res")]))
+    return out
